@@ -227,10 +227,10 @@ def parser():
              ('s^2 a_i', 4 * a), ('a_i^-2', a**-2.), ('a_i^(s + t)', a**5), ('-s^2', -4.), ('a_1', a[1]), ('A_i0', A[:, 0]), ('A_0i', A[0]), ('A_1i a_i', A[1] @ a), ('T_i2i', E('ii->', T[:, 2, :])),
              ('T_0ij + A_ji', T[0] + A.T), ('T_i1j A_ij', (T[:, 1, :] * A).sum()), ('(a_i + b_i) a_i', (a + b) @ a), ('(A_ij + B_ji) a_j', (A + B.T) @ a), ('a_i (b_j b_j)', a * (b @ b)),
              ('A_ij B_jk', A @ B), ('A_ij B_kj', A @ B.T), ('A_ik B_kj + A_ij', A @ B + A), ('  a_i  ', a), ('a_i  b_i', a @ b),
-             ('{a_i}', a), ('[a_i]', 0 * a), ('{a_i + b_i} a_i', (a + b) @ a), ('[A_ij] + A_ji', A.T), ('T_ij1', T[:, :, 1]), ('T_1i0', T[1, :, 0]), ('T_ij2 A_ij', (T[:, :, 2] * A).sum())]
+             ('{a_i}', a), ('[a_i]', 0 * a), ('{a_i + b_i} a_i', (a + b) @ a), ('[A_ij] + A_ji', A.T), ('2^2 a_i', 4 * a), ('2^(1 + 1) a_i', 4 * a), ('(a_i b_i)^2', (a @ b)**2), ('a_i^(b_j b_j)', a**(b @ b)), ('T_ij1', T[:, :, 1]), ('T_1i0', T[1, :, 0]), ('T_ij2 A_ij', (T[:, :, 2] * A).sum())]
     invalid = ['a_i + A_ij', 'A_ij + a_i', 'a_i + c_i', 'A_ij + C_ij', 'C_ij + A_ij', 'A_ij + A_ik', 'a_i a_i a_i', 'A_ii a_i', 'a_i A_ii', 'T_iii', 'a_i / b_j', 'a_i b_i / a_i', 's / s / s',
                'a_i a_i / b_i b_i', 'a_i / b_i b_i', '(a_i a_i) b_i', 'a_i (b_i b_i)', 'a_i^(b_i b_i)', 'x', 'a_ij', 'A_i', 'a_3', 'C_2i', 'a_A', 'a_i 2', '2 2 a_i', 'a_i + -b_i', 'a_i +b_i', 'a_i+ b_i', 'a_i+b_i', 'a_i -b_i',
-               'a_i/ s', 'a_i /s', '', ' ', '-', '(a_i', 'a_i)', '[a_i)', 'a_i (', '() a_i', 'a_i^b_j', 'a_i^2^2', 'a_i ^2', 'a_i^ 2', 'a_i^', '^2', 'a_i + ', ' + a_i', 'a_i - ', 'a_i / ', ' / s', 'a_i^x', 'f(a_i)', 'a_i c_i', '<a_i>', 'a_i [', 'a[a_i]', 'a{a_i}', '(a_i]', '{a_i) b_i', '(a_i) b', '1.2.3', '.', 'A_i3', 'T_0i3', 'A_i-', 'A_iI']
+               'a_i/ s', 'a_i /s', '', ' ', '-', '(a_i', 'a_i)', '[a_i)', 'a_i (', '() a_i', 'a_i^b_j', 'a_i^2^2', 'a_i ^2', 'a_i^ 2', 'a_i^', '^2', 'a_i + ', ' + a_i', 'a_i - ', 'a_i / ', ' / s', 'a_i^x', 'f(a_i)', 'a_i c_i', 'a_i^(2)b', 'a_i^b(2)', 'a_i 2^2', 'a_i^(2', 'a_i^[2]', 'a_i^2 ^2', 'a_i^-', '<a_i>', 'a_i [', 'a[a_i]', 'a{a_i}', '(a_i]', '{a_i) b_i', '(a_i) b', '1.2.3', '.', 'A_i3', 'T_0i3', 'A_i-', 'A_iI']
     for expr, want in valid:
         try:
             got = numpy.asarray((expr @ ns).eval())
